@@ -140,6 +140,10 @@ func InModule(fn *ssa.Function) bool {
 		if o := fn.Origin(); o != nil && o != fn {
 			return InModule(o)
 		}
+		// synthetic wrappers (bound methods, thunks): decide by the wrapped object
+		if obj := fn.Object(); obj != nil && obj.Pkg() != nil {
+			return strings.HasPrefix(obj.Pkg().Path(), ModPath)
+		}
 		return false
 	}
 	return strings.HasPrefix(pk.Pkg.Path(), ModPath)
